@@ -35,3 +35,49 @@ package verifspec
 //@   returns slice
 //@   ensures !result.$nil && result.$offset == 0 && result.$length == length && result.$capacity == hi(undef(capacity), capacity, length)
 //@   loop 1 invariant 0 <= i
+
+// Growth policy: at least the requested capacity (the Go specification leaves the exact growth open).
+//@ js prelude.js $calculateNewCapacity
+//@ property C07
+//@   param minCapacity: nat, oldCapacity: nat
+//@   requires minCapacity <= 2147483647 && oldCapacity <= 2147483647
+//@   returns nat
+//@   ensures result >= minCapacity && result >= oldCapacity
+
+// append's reallocation rule: if the capacity suffices the result shares the array (same offset, same capacity);
+// otherwise a new array of at least the requested capacity is allocated, the first $length elements are copied, and the
+// old array is left untouched.
+//@ js prelude.js $growSlice
+//@ property C07
+//@   param slice: slice, minCapacity: nat
+//@   requires minCapacity <= 2147483647 && slice.$capacity <= 2147483647
+//@   returns slice
+//@   loop 1 invariant i >= length && forall(k, 0, length, newArray[k] == old(slice.$array[slice.$offset + k]))
+//@   ensures !result.$nil && result.$length == slice.$length
+//@   ensures minCapacity <= slice.$capacity ==> sameobj(result.$array, slice.$array) && result.$offset == slice.$offset && result.$capacity == slice.$capacity
+//@   ensures minCapacity > slice.$capacity ==> freshobj(result.$array) && result.$offset == 0 && result.$capacity >= minCapacity && len(result.$array) >= result.$capacity
+//@   ensures minCapacity > slice.$capacity ==> forall(k, 0, slice.$length, result.$array[k] == old(slice.$array[slice.$offset + k]))
+//@   ensures forall(k, 0, len(slice.$array), slice.$array[k] == old(slice.$array[k]))
+
+// copy / memmove on element arrays of scalar kinds: dst[dstOffset .. dstOffset+n) receives the *old* contents of
+// src[srcOffset .. srcOffset+n), also when dst and src are the same array and the ranges overlap (both directions);
+// nothing else changes.  (Struct and array element kinds go through elem.copy and are not covered.)
+//@ js prelude.js $copyArray
+//@ property C07
+//@   prune
+//@   param dst: arr, src: arr, dstOffset: nat, srcOffset: nat, n: nat, elem: elemtype
+//@   requires elem.kind != 17 && elem.kind != 25
+//@   requires dstOffset + n <= len(dst) && srcOffset + n <= len(src)
+//@   requires isplain(dst) == isplain(src)
+//@   requires sameobj(dst, src) ==> len(dst) == len(src)
+//@   loop 3 invariant i >= -1 && i <= n - 1 && sameobj(dst, src) && dstOffset > srcOffset
+//@   loop 3 invariant forall(k, i + 1, n, dst[dstOffset + k] == old(src[srcOffset + k]))
+//@   loop 3 invariant forall(k, 0, len(src), (k < dstOffset + i + 1 || k >= dstOffset + n) ==> src[k] == old(src[k]))
+//@   loop 3 decreases i + 1
+//@   loop 4 invariant i >= 0 && i <= n && !(sameobj(dst, src) && dstOffset > srcOffset)
+//@   loop 4 invariant forall(k, 0, i, dst[dstOffset + k] == old(src[srcOffset + k]))
+//@   loop 4 invariant forall(k, 0, len(dst), (k < dstOffset || k >= dstOffset + i) ==> dst[k] == old(dst[k]))
+//@   loop 4 invariant !sameobj(dst, src) ==> forall(k, 0, len(src), src[k] == old(src[k]))
+//@   loop 4 decreases n - i
+//@   ensures forall(k, 0, n, dst[dstOffset + k] == old(src[srcOffset + k]))
+//@   ensures forall(k, 0, len(dst), (k < dstOffset || k >= dstOffset + n) ==> dst[k] == old(dst[k]))
